@@ -5,6 +5,7 @@ import (
 	"go/types"
 	"regexp"
 	"sort"
+	"strconv"
 	"strings"
 
 	"golang.org/x/tools/go/ssa"
@@ -21,6 +22,25 @@ func C06(p *ir.Program, r *report.R) {
 	// the signature pre-check trusts the mempool cache only for transactions that passed their basic check
 	c05Cache(c)
 	journalDirtyCounts(c)
+	// at most ONE account input: checkCommitEqual adds up the commitments of all account inputs, but the
+	// executor debits a single one; an iteration of the input loop that accepts an account input is the
+	// first to do so (the kind bit not yet set / the counter still zero)
+	{
+		sem := p.Func("types", "UTXOTransaction.checkTxSemantic")
+		nA := 0
+		for _, l := range ir.Loops(sem) {
+			for _, latch := range l.Latches {
+				fs := ir.FactsAtBlock(latch)
+				if !ir.HasFact(fs, "tx.Inputs[*types.AccountInput)#1") {
+					continue
+				}
+				nA++
+				first := ir.HasFact(fs, "!eq((φ:kind & 2),2)") || ir.HasFact(fs, "eq(φ:accountInNum,0)") || ir.HasFact(fs, "lt(φ:accountInNum,1)") || ir.HasFact(fs, "le(φ:accountInNum,0)")
+				r.Check("K1", "types.(*UTXOTransaction).checkTxSemantic/account-input/first-and-only", p.InstrPos(latch.Instrs[len(latch.Instrs)-1]), first, "an account input is accepted only when none was accepted before: "+short(strings.Join(ir.FactStrings(fs), " ; "), 300))
+			}
+		}
+		r.Check("K1", "types.(*UTXOTransaction).checkTxSemantic/account-input/sites", p.Pos(sem.Pos()), nA >= 1, fmt.Sprintf("%d accepting iterations of the input loop", nA))
+	}
 	// a self-destructed account holds nothing: Suicide replaces the native balance AND the token map by
 	// fresh empty values (the beneficiary was credited before; a contract that is called again in the same
 	// block must not pay out a second time)
@@ -248,6 +268,19 @@ func C06(p *ir.Program, r *report.R) {
 			}
 			r.Check("K2", rn+"/revert-before-refund", p.InstrPos(rev[0]), !found, d)
 			c.Guards(rn, "revert", rev[0], G{"only-on-failure", "!eq(vmerr,nil)"})
+		}
+		// "used no gas" (tx.Gas = tx.InitialGas: fee 0, nothing for the collector) is declared only for the
+		// one transaction kind that bought none, the contract upgrade; every other kind pays for what it used
+		{
+			nReset := 0
+			for _, st := range p.Stores(p.Field("app", "processTransaction.Gas")) {
+				if st.Fn != rg || !strings.HasSuffix(ir.Render(st.Val), ".InitialGas") {
+					continue
+				}
+				nReset++
+				c.GuardsS(rn, "declare no gas used", st, G{"contract-upgrade-only", "eq(tx.Type," + strconv.Quote(c.ConstString("types", "TxContractUpgrade")) + ")"})
+			}
+			r.Check("K1", rn+"/declare no gas used/sites", p.Pos(rg.Pos()), nReset == 1, fmt.Sprintf("%d stores tx.Gas = tx.InitialGas in refundGas", nReset))
 			var extra []string
 			for _, f := range ir.FactStrings(ir.FactsAt(rev[0])) {
 				if f != "!eq(vmerr,nil)" {
